@@ -214,10 +214,17 @@ obligation!(comparison_op__matches, {
 obligation!(comparison_op__wildcard, {
     lexes!(ComparisonOp, "wildcard x", 8, B(BytesOp::Wildcard));
 });
-obligation!(comparison_op__strict_wildcard, {
+// 20 alternatives deep: with the contract stub and the dead BTreeSet destructors CBMC
+// exceeds 14 GB; with std::mem::drop leaking (see lex/verif_kani/common.rs) the REAL
+// `expect` is affordable (unwind 18 = memcmp over the 15-byte spelling).
+#[kani::proof]
+#[kani::unwind(18)]
+#[kani::stub(std::mem::drop, crate::lex::verif_kani::common::mem_drop__leak)]
+fn comparison_op__strict_wildcard() {
     lexes!(ComparisonOp, "strict wildcard x", 15, B(BytesOp::StrictWildcard));
-});
+}
 // `!` alone is the unary operator, never a comparison
 obligation!(comparison_op__bang_alone_rejected, {
     rejects!(ComparisonOp, "! x");
 });
+
